@@ -5,9 +5,11 @@
 (* under the quirk set of the .cfg, for both layers (HTTP handlers /       *)
 (* IInsertServiceV2.Request), the properties that outcome breaks, and      *)
 (* every watchdog Check case (set of stale services -> verdicts).          *)
-(* Run once with the quirks on (what the code is believed to do) and once  *)
-(* with the quirks off (what the properties demand); tools/props/x03.py    *)
-(* joins the two and cmd/x03 `cases` compares the real code with both.     *)
+(* Run three times: _q (the quirk set the code is believed to have), _i    *)
+(* (all quirks off: what the properties demand) and _m (all quirks on,     *)
+(* including the retired ones: model mutations); tools/props/x03.py joins  *)
+(* them and cmd/x03 `cases` compares the real code with all three - real   *)
+(* code that matches only a mutation is reported under what it breaks.     *)
 (***************************************************************************)
 EXTENDS WriterLifecycle, Json
 
